@@ -33,7 +33,7 @@ def generate(prop, rng, index, tier):
         ncell *= n
     template = {
         "dims": dims,
-        "coords": {d: {"dtype": rng.choice(["f8", "f4", "i4", "i2"]),
+        "coords": {d: {"dtype": rng.choice(["f8", "f4", "i4", "i2"]), "packed": rng.random() < 0.2,
                        "values": [rng.randint(-50, 50) * (1 if rng.random() < 0.5 else 0.5) for _ in range(n)],
                        "attrs": ({"units": rng.choice(["m", "degrees_north"]), "long_name": d + " axis"}
                                  if rng.random() < 0.6 else {})} for d, n in dims},
@@ -93,8 +93,15 @@ def _make_template(path, t):
             ds.createDimension(d, n)
         for d, n in t["dims"]:
             c = t["coords"][d]
-            v = ds.createVariable(d, c["dtype"], (d,))
-            v[:] = numpy.array(c["values"], dtype=c["dtype"])
+            if c.get("packed"):
+                # a packed coordinate: int16 on disk, scale_factor / add_offset give the real values
+                v = ds.createVariable(d, "i2", (d,))
+                v.setncattr("scale_factor", 0.25)
+                v.setncattr("add_offset", 40.5)
+                v[:] = numpy.array([40.5 + 0.25 * int(x) for x in c["values"]])
+            else:
+                v = ds.createVariable(d, c["dtype"], (d,))
+                v[:] = numpy.array(c["values"], dtype=c["dtype"])
             for k, a in sorted(c["attrs"].items()):
                 v.setncattr(k, a)
         if t["crs"]:
@@ -175,7 +182,11 @@ def execute(sc):
                             res.violate("C18.dims", "C18.dims dimension-not-copied", "dimension %s missing or resized" % d)
                             return _finish(sc, res)
                         a, b = ds.variables[d], ts.variables[d]
-                        if a.dtype != b.dtype or a[:].tobytes() != b[:].tobytes():
+                        if t["coords"][d].get("packed"):
+                            res.probe("packed (scale_factor/add_offset) coordinate variable")
+                        a.set_auto_maskandscale(True)
+                        b.set_auto_maskandscale(True)
+                        if a.dtype != b.dtype or numpy.asarray(a[:]).tobytes() != numpy.asarray(b[:]).tobytes():
                             res.violate("C18.dims", "C18.dims coordinate-values-changed",
                                         "coordinate %s: %s %r instead of %s %r" % (d, a.dtype, a[:].tolist(), b.dtype, b[:].tolist()))
                             return _finish(sc, res)
